@@ -90,10 +90,11 @@ def pad_sweep(u, case):
                 case(i, 0, '-', v, 'pad-sweep')
         # KD5<A> { s: String, a: A, t: u8 } with A a vector / boxed slice of zero-copy items: borrowed in ε-copy results
         if isinstance(t, Adt) and t.d.name == 'KD5' and not t.d.module:
-            inner = t.targs[0].t.d.name
+            el = t.targs[0].t
+            inner = el.d.name if isinstance(el, Adt) else ('z0' if isinstance(el, Array) and not isinstance(el.t, Str) else 's0')
             item = {'KZE2': lambda n: '#0(),#1(%d,),#2(%d,),' % (n % 256, 1000 + n), 'KZ8': lambda n: '{%d,%d,},{7,8,},' % (n, 1000 + n),
-                    'KZ6': lambda n: '{%d,},{9,},' % (n % 256)}[inner]
-            for n in range(64 if inner != 'KZE2' else 16):
+                    'KZ6': lambda n: '{%d,},{9,},' % (n % 256), 'z0': lambda n: '[],[],[],', 's0': lambda n: '[],[],'}[inner]
+            for n in range(64 if inner in ('KZ8', 'KZ6') else 16):
                 case(i, 0, '-', '{s"%s",[%s],%d,}' % ('41' * n, item(n), n % 256), 'pad-sweep')
         # KD4 { s: String, v: Vec<KZE2 (zero-copy enum, alignment from the 4-byte tag)>, t: u8 }
         if isinstance(t, Adt) and t.d.name.endswith('D4') and not t.d.module and t.d.name.startswith('K'):
@@ -442,6 +443,10 @@ def gen_cases(prop, u, seed, tier, probe=None):
             cs.add('wfail %d k=-,m=1,int=2,ff=0 %s' % (i, v), kind='wfail', ti=i, val=v, k=None, total=n, ff=False, family='split-retry')
             cs.add('wfail %d k=-,m=5,int=3,ff=0 %s' % (i, v), kind='wfail', ti=i, val=v, k=None, total=n, ff=False, family='split-retry')
             cs.add('wfail %d k=-,ff=1 %s' % (i, v), kind='wfail', ti=i, val=v, k=None, total=n, ff=True, family='flush-fail')
+            # the failing flush reports other kinds of error: Interrupted (which write_all retries, flush must not swallow),
+            # WouldBlock, TimedOut
+            for code in (2, 3, 4):
+                cs.add('wfail %d k=-,ff=%d %s' % (i, code, v), kind='wfail', ti=i, val=v, k=None, total=n, ff=True, family='flush-fail-kind%d' % code)
             cs.add('wfail %d devfull %s' % (i, v), kind='wfail', ti=i, val=v, k=0, total=n, ff=False, devfull=True, family='dev-full')
         for k_, t in enumerate(u.slice_elems):
             vt = Seq('vec', t)
